@@ -1,15 +1,17 @@
 #!/usr/bin/env python3
-"""usage: bin/seedtable.py <campaign outdir>   -- markdown table: seeded mutation -> what the check of its property reported"""
+"""usage: bin/seedtable.py <campaign outdir>...   -- markdown table: seeded mutation -> what the check of its property reported
+(several directories: the last one that holds a log of the mutation wins)"""
 import json
 import os
 import re
 import sys
 
 ROOT = os.path.dirname(os.path.dirname(os.path.abspath(__file__)))
-out = sys.argv[1]
+outs = sys.argv[1:]
 rows = []
 for n in sorted(os.listdir(os.path.join(ROOT, 'seeded'))):
     meta = json.load(open(os.path.join(ROOT, 'seeded', n, 'meta.json')))
+    out = ([o for o in outs if os.path.exists(os.path.join(o, n + '.log'))] or outs)[-1]
     log = os.path.join(out, n + '.log')
     what = (meta.get('breaks') or meta.get('summary') or '').strip()
     what = re.sub(r'\s+', ' ', what)
